@@ -1088,11 +1088,12 @@ Section ANP.
         + intros n X. split; [exact X|exact I].
         + mn.
         + intros b; mn.
-        + intros acc st Hin. rewrite forallb_forall in H. specialize (H _ Hin).
+        + intros acc st Hin. apply block_split_incl in Hin. rewrite forallb_forall in H. specialize (H _ Hin).
           apply (np_bind _ (fun r n => obelow n r)); [mn|eapply np_pre; [|now apply (an_stmt R PR)]; pc|intros sr].
           apply np_unify_option'. pc.
-      - destruct (last_stmt stmts) as [[]|] eqn:E; try (apply np_ret; pc).
-        pose proof (last_stmt_ok _ _ _ H E) as Hv.
+      - destruct (block_split_cases stmts) as [(ss & v0 & vsp & -> & E)|E]; rewrite E; cbn [snd]; [|apply np_ret; pc].
+        assert (Hv : e_ok kinds v0 = true).
+        { rewrite forallb_forall in H. apply (H (SStatementExpression v0 vsp)). apply in_or_app. right. now left. }
         apply (np_bind _ Qe); [mn|eapply np_pre; [|now apply (an_expr R PR)]; pc|intros [vret v]].
         apply (np_bind _ (fun r n => obelow n r)); [mn|apply np_unify_option'; pc|intros r'].
         apply np_ret. pc.
